@@ -1,4 +1,85 @@
+/-
+  C12Tables: what a successful `Load` establishes about the table, assembled from the pass over
+  `Load` in Cctz/Proofs/LtLoad.lean (value facts, for every byte string), the index-safety facts of
+  Cctz/Proofs/LdLoad.lean (`load_spec`), the checkers (Cctz/Proofs/LtCheck.lean) and the built-in
+  tables (Cctz/Proofs/TlFixed.lean, Cctz/Proofs/LtBuiltin.lean).
+-/
 import Cctz.Model.Tz
 import Cctz.Model.TableCheck
 import Cctz.Spec.TableSem
 import Cctz.Spec.TableTame
+import Cctz.Proofs.LdLoad
+import Cctz.Proofs.LdBuiltin
+import Cctz.Proofs.LtCheck
+import Cctz.Proofs.LtBuiltin
+import Cctz.Proofs.LtLoad
+
+namespace Cctz.Lt
+open Cctz Cctz.Tz Cctz.Spec Cctz.Ld
+
+/-- the facts of the pass, without assuming anything about the flags -/
+theorem load_facts (cfg : LoadCfg) (b : Bytes) (z : Zone) (h : (load cfg b).val = .ok z) :
+    LoadFacts false z := G_false (load_G false cfg b) z h
+
+/-- the facts of the pass when no flag was raised -/
+theorem load_facts_ok (cfg : LoadCfg) (b : Bytes) (z : Zone) (h : (load cfg b).val = .ok z)
+    (hok : (load cfg b).ok) : LoadFacts true z := G_true (load_G true cfg b) hok z h
+
+/-- index facts (from the index-safety proof of `Load`) -/
+theorem load_tableIdx (cfg : LoadCfg) (b : Bytes) (z : Zone) (h : (load cfg b).val = .ok z) :
+    TableIdx z := (load_spec cfg b).2 z h
+
+theorem timesOf_length (z : Zone) : (timesOf z.transitions).length = z.transitions.size := by
+  simp [timesOf]
+
+theorem timeOf_getElem (z : Zone) (i : Nat) (hi : i < z.transitions.size) :
+    timeOf z i = (timesOf z.transitions)[i]'(by rw [timesOf_length]; exact hi) := by
+  rw [timeOf_eq, List.getElem?_eq_getElem (by rw [timesOf_length]; exact hi)]; rfl
+
+theorem load_columns (cfg : LoadCfg) (b : Bytes) (z : Zone) (h : (load cfg b).val = .ok z) :
+    CivilCols z ∧ CivilSorted z :=
+  ⟨(load_facts cfg b z h).cols, (load_facts cfg b z h).sorted⟩
+
+theorem load_times (cfg : LoadCfg) (b : Bytes) (z : Zone) (h : (load cfg b).val = .ok z)
+    (hok : (load cfg b).ok) : TimesInRange z := by
+  intro i hi
+  rw [timeOf_getElem z i hi]
+  exact (load_facts_ok cfg b z h hok).times.range rfl _ (List.getElem_mem _)
+
+theorem load_wf (cfg : LoadCfg) (b : Bytes) (z : Zone) (h : (load cfg b).val = .ok z)
+    (hext : z.extended = false) : TableWF z := by
+  have ti := load_tableIdx cfg b z h
+  refine ⟨ti.nonempty, ?_, ti.typeIdx, ti.defaultIdx⟩
+  intro i j hij hj
+  have hs := (load_facts cfg b z h).times.sorted hext
+  rw [List.pairwise_iff_getElem] at hs
+  have := hs i j (by rw [timesOf_length]; omega) (by rw [timesOf_length]; exact hj) hij
+  rw [← timeOf_getElem z i (by omega), ← timeOf_getElem z j hj] at this
+  exact this
+
+theorem load_sentinels (cfg : LoadCfg) (b : Bytes) (z : Zone) (h : (load cfg b).val = .ok z) :
+    timeOf z 0 < 0 ∧ 0 ≤ timeOf z (z.transitions.size - 1) := by
+  have tf := (load_facts cfg b z h).times
+  constructor
+  · obtain ⟨a, rest, hl, ha⟩ := tf.first
+    rw [timeOf_eq, hl]
+    exact ha
+  · obtain ⟨pre, x, hl, hx⟩ := tf.last
+    have hlen : z.transitions.size = pre.length + 1 := by
+      rw [← timesOf_length, hl]; simp
+    rw [timeOf_eq, hl, hlen, Nat.add_sub_cancel, List.getElem?_append_right (Nat.le_refl _),
+      Nat.sub_self]
+    exact hx
+
+/-! ### the built-in tables -/
+
+theorem builtin_columns (off : Int) :
+    CivilSorted (resetToBuiltinUTC off).val ∧ Separated (resetToBuiltinUTC off).val ∧
+    TimesInRange (resetToBuiltinUTC off).val ∧ FirstEntryRoom (resetToBuiltinUTC off).val := by
+  rw [Tl.reset_val]
+  exact ⟨Tl.fixed_civilSorted off, fixed_separated off, fixed_timesInRange off, fixed_firstEntryRoom off⟩
+
+/-- the index facts of the built-in table, from the index-safety proof, agree with `fixed_wf` -/
+theorem builtin_tableIdx (off : Int) : TableIdx (resetToBuiltinUTC off).val := (builtin_spec off).2
+
+end Cctz.Lt
